@@ -5,7 +5,7 @@
    tape, is the statement restricted to the decidable class Supported (and quirk-coherent) signatures. *)
 From Coq Require Import String.
 From PV Require Import Model.Prelude Model.Bits Model.Sig Model.Matcher Model.Select Model.Options Model.Wire Model.Text Model.SigParse Model.Imperson
-  Spec.C01 Spec.C05 Proofs.ImpSoundP Proofs.Refuted.
+  Spec.C01 Spec.C05 Proofs.ImpSoundP Proofs.SatCohP Proofs.Refuted.
 
 (* C05_supported_sound: the packet built by the impersonator, written to the wire as Scapy does and dissected as pyp0f
    does, is matched by the requested signature EXACTLY at TTL distance extra_hops -- for every supported, coherent
@@ -17,6 +17,24 @@ Theorem C05_supported_sound : forall md s b hops mtu t x t',
   oracle md s x = Ok (Some Exact, hops).
 Proof. exact supported_sound. Qed.
 Print Assumptions C05_supported_sound.
+
+(* The same in the property's own terms: "satisfiable" = some real packet of the base's IP version and SYN / SYN+ACK type
+   matches the signature exactly.  Quirk coherence is a CONSEQUENCE of satisfiability (C05_coherence_from_satisfiability). *)
+Theorem C05_satisfiable_supported_sound : forall md s b hops mtu t x t',
+  wf_sig s -> (s_quirks s < 2 ^ 17)%N -> N.land (s_quirks s) (invalid_for (s_ver s)) = 0%N ->
+  supported_b s = true -> admissible_base b -> Satisfiable md s b ->
+  0 <= hops < s_ttl s -> hops <= md ->
+  imp_tcp s b hops mtu None t = Ok (x, t') ->
+  oracle md s x = Ok (Some Exact, hops).
+Proof. exact satisfiable_supported_sound. Qed.
+Print Assumptions C05_satisfiable_supported_sound.
+
+Theorem C05_coherence_from_satisfiability : forall md s b,
+  wf_sig s -> (s_quirks s < 2 ^ 17)%N -> N.land (s_quirks s) (invalid_for (s_ver s)) = 0%N ->
+  supported_b s = true -> admissible_base b -> Satisfiable md s b ->
+  coherent_b s b = true.
+Proof. exact satisfiable_coherent. Qed.
+Print Assumptions C05_coherence_from_satisfiability.
 
 (* ... and it does not raise: the only failure of the model is a random tape that is too short or out of range *)
 Theorem C05_supported_no_raise : forall s b hops mtu t,
